@@ -179,6 +179,19 @@ def build_registry():
     for kind in ('cacgmm', 'cwmm', 'cbmm'):
         reg[f'{kind}.fit[hard start, clipping option]'] = hard_start(kind)
 
+    def soft_unnormalised(kind):
+        def maker(rng):
+            # class masks that were estimated independently (or clipped): positive class mass everywhere, not summing to one over the classes
+            lead = () if rng.uniform() < 0.5 else (2,)
+            real = kind in models.REAL
+            y = (rng.standard_normal((*lead, 14, 3)) + 1) if real else _cdata(rng, lead, 14, 3)
+            ini = rng.uniform(0.05, 1.0, size=(*lead, 2, 14))
+            tr = models.trainer(kind)
+            return getattr(tr, 'fit' if rng.uniform() < 0.5 else 'fit_predict'), (y,), dict(initialization=ini, iterations=2), {}
+        return maker
+    for kind in ('cacgmm', 'cwmm', 'cbmm', 'gmm', 'vmfmm'):
+        reg[f'{kind}.fit[start not normalised over classes]'] = soft_unnormalised(kind)
+
     def dist_fit(fam):
         def maker(rng):
             lead = () if rng.uniform() < 0.5 else (2,)
@@ -235,6 +248,8 @@ def build_registry():
             kw = {}
             if name == 'get_gev_vector':
                 kw = dict(use_eig=bool(rng.integers(0, 2)))
+                if rng.uniform() < 0.3:
+                    Pn = Pn.copy(); Pn[int(rng.integers(len(Pn)))] = 0          # a bin without noise estimate (all-zero noise mask): refused with an exception
             elif rng.uniform() < 0.5:
                 kw = {('ref_channel' if 'souden' in name else 'reference_channel'): 1}
             return getattr(bf, name), (Px, Pn), kw, {}
@@ -288,6 +303,13 @@ def build_registry():
         reg[f'{which}.calculate_mapping'] = aligner(which, 'calculate_mapping')
         reg[f'{which}.__call__'] = aligner(which, '__call__')
     reg['apply_mapping'] = lambda rng: (pa.apply_mapping, (rng.uniform(size=(3, 5, 4)), pa.sample_random_mapping(3, 5, np.random.RandomState(1))), {}, {})
+    def dhtv_default(rng):
+        size = int(rng.choice([512, 512, 512, 1024]))
+        metric = [None, 'cos', 'euclidean', 'multiply'][int(rng.integers(4))]
+        mask = rng.uniform(0.05, 1, size=(2, size // 2 + 1, 6))
+        f = (lambda m: pa.DHTVPermutationAlignment.from_stft_size(size).calculate_mapping(m)) if metric is None else (lambda m: pa.DHTVPermutationAlignment.from_stft_size(size, similarity_metric=metric).calculate_mapping(m))
+        return f, (mask,), {}, {}
+    reg['DHTVPermutationAlignment.from_stft_size(...).calculate_mapping'] = dhtv_default
     reg['dhtv.alignment_plan'] = lambda rng: ((lambda: pa.DHTVPermutationAlignment.from_stft_size(512).alignment_plan), (), {}, {})
     reg['_mapping_from_score_matrix'] = lambda rng: (pa._mapping_from_score_matrix, (rng.standard_normal((4, 3, 3)),), dict(algorithm=['greedy', 'optimal'][int(rng.integers(2))]), {})
     # metrics -------------------------------------------------------------------------------------------------------
@@ -343,6 +365,10 @@ def plan(tier, seed):
     for name in names:
         for r in range(reps if not name.startswith(('cbmm', 'trainer:bingham', 'dist:bingham')) else max(1, reps // 3)):
             cases.append(dict(lane='entry', name=name, rs=[seed, 21, i])); i += 1
+            if r in (0, 1) or (tier == 'thorough' and r % 10 == 0):
+                # one case per entry point is repeated in a fresh interpreter (see run_entry); for every other one the fresh interpreter
+                # serves a call with other arguments first
+                cases[-1]['twin'] = 'first-call' if r == 0 else 'after-other-arguments'
     h = S(tier, 40, 400)
     for r in range(h):
         cases.append(dict(lane='history', kind=['cacgmm', 'cwmm', 'cbmm', 'gmm', 'vmfmm', 'gcacgmm', 'vmfcacgmm', 'T:watson', 'T:bingham', 'T:cacg', 'T:gauss', 'T:vmf'][r % 12],
@@ -387,6 +413,72 @@ def run_registry(case, R):
     R.mark_nontrivial('registry-surface', len(surf))
 
 
+def _relayout(x, layout):
+    if isinstance(x, np.ndarray) and x.ndim >= 2 and x.size > 1:
+        if layout == 'f':
+            return np.asfortranarray(x)
+        if layout == 'colmajor':
+            return np.ascontiguousarray(np.swapaxes(x, -1, -2)).swapaxes(-1, -2)
+        if layout == 'view':
+            big = np.zeros(x.shape[:-1] + (2 * x.shape[-1],), dtype=x.dtype)
+            big[..., ::2] = x
+            return big[..., ::2]
+    return x
+
+
+def fingerprint(r):
+    """hashable description of a result: paths, shapes, dtypes and bytes of all arrays, repr of scalars"""
+    parts = []
+
+    def rec(o_, path, depth=0):
+        if depth > 6:
+            return
+        if isinstance(o_, np.ndarray):
+            parts.append((path, digest(o_)))
+        elif hasattr(o_, '__dataclass_fields__'):
+            for k in o_.__dataclass_fields__:
+                rec(getattr(o_, k), f'{path}.{k}', depth + 1)
+        elif isinstance(o_, dict):
+            for k in sorted(o_, key=str):
+                rec(o_[k], f'{path}[{k!r}]', depth + 1)
+        elif isinstance(o_, (list, tuple)):
+            for i_, v in enumerate(o_):
+                rec(v, f'{path}[{i_}]', depth + 1)
+        elif isinstance(o_, (int, float, complex, str, bool, type(None), np.generic)):
+            parts.append((path, repr(o_)))
+        else:
+            parts.append((path, type(o_).__name__))
+    rec(r, 'r')
+    return hashlib.sha1(repr(parts).encode()).hexdigest()
+
+
+def first_call_fingerprint(case):
+    """the same entry call as run_entry makes first, for use in a fresh interpreter (nothing else has been called there before)"""
+    import warnings
+    warnings.simplefilter('ignore')
+    reg = build_registry()
+    rng = gen.rng_of(case)
+    fn, args, kw, o = (reg[case['name']](rng) + ({},))[:4]
+    o = o or {}
+    layout = ['c', 'f', 'view', 'colmajor'][int(rng.integers(0, 4))]
+    if layout != 'c' and not o.get('exempt'):
+        args = tuple(_relayout(a, layout) for a in args)
+        kw = {k: _relayout(v, layout) for k, v in kw.items()}
+    if case.get('twin') == 'after-other-arguments':
+        # the very first call of this interpreter is the same entry point with OTHER arguments (whatever it returns or raises)
+        for j in range(3):
+            try:
+                fn_b, args_b, kw_b, o_b = (reg[case['name']](np.random.default_rng([*case['rs'], 4711 + j])) + ({},))[:4]
+                if (o_b or {}).get('seed') is not None:
+                    np.random.seed(o_b['seed'])
+                fn_b(*args_b, **kw_b)
+            except Exception:
+                pass
+    if o.get('seed') is not None:
+        np.random.seed(o['seed'])
+    return fingerprint(fn(*args, **kw))
+
+
 def run_entry(case, R):
     reg = build_registry()
     name = case['name']
@@ -404,18 +496,7 @@ def run_entry(case, R):
     # memory layout of the argument arrays: C order, Fortran order (e.g. loadmat output) or a non-contiguous view
     layout = ['c', 'f', 'view', 'colmajor'][int(rng.integers(0, 4))]
 
-    def relayout(x):
-        if isinstance(x, np.ndarray) and x.ndim >= 2 and x.size > 1:
-            if layout == 'f':
-                return np.asfortranarray(x)
-            if layout == 'colmajor':
-                # the last two axes stored column-major (a transposed view, a loadmat result): LAPACK wrappers may work in place on it
-                return np.ascontiguousarray(np.swapaxes(x, -1, -2)).swapaxes(-1, -2)
-            if layout == 'view':
-                big = np.zeros(x.shape[:-1] + (2 * x.shape[-1],), dtype=x.dtype)
-                big[..., ::2] = x
-                return big[..., ::2]
-        return x
+    relayout = lambda x: _relayout(x, layout)
     if layout != 'c' and not o.get('exempt'):
         args = tuple(relayout(a) for a in args)
         kw = {k: relayout(v) for k, v in kw.items()}
@@ -445,6 +526,22 @@ def run_entry(case, R):
     import copy
     r1_raw = r1
     r1 = copy.deepcopy(r1)
+    if case.get('twin') and not o.get('exempt') and (seed is not None or kw.get('num_classes') is None):
+        # fresh-interpreter twin: this worker process has served hundreds of other calls before; a process that has done nothing else
+        # must get the same bytes for the same first call (anything that sticks from earlier calls - a default remembered per size,
+        # a fallback flag flipped by an earlier input - changes them)
+        import json as _json, subprocess, sys as _sys
+        try:
+            pr = subprocess.run([_sys.executable, '-B', '-c', 'import json,sys\nfrom vmon.props import c20\nprint("FP", c20.first_call_fingerprint(json.loads(sys.argv[1])))', _json.dumps(case)],
+                                capture_output=True, text=True, timeout=120)
+            fp = [l.split()[1] for l in pr.stdout.splitlines() if l.startswith('FP ')]
+            if fp:
+                R.check('C20.history', fp[0] == fingerprint(r1), f'history/differs-from-fresh-process/{name}', f'{name}: this process (which served other calls before) returns other bytes than a fresh interpreter for the same call')
+                R.count('fresh-interpreter twins compared')
+            else:
+                R.count('fresh-interpreter twin produced no fingerprint: ' + (pr.stderr.strip().splitlines() or ['?'])[-1][:80])
+        except subprocess.TimeoutExpired:
+            R.count('fresh-interpreter twin timed out')
     g1 = global_state()
     # the caller owns what it was handed: scribbling over the returned arrays (unless they are views of the caller's own arguments)
     # must not reach any later call - a result served again from a cache, or a stored table handed out by reference, shows up here
@@ -483,6 +580,27 @@ def run_entry(case, R):
         R.fail('C20.repeat', f'repeat/raised/{name}', f'second identical call of {name} raised {type(e).__name__}')
         return
     R.check('C20.repeat', same(r1, r2), f'repeat/differs/{name}', f'repeating {name} with identical arguments gives a different result')
+    # history-free: another call of the same entry point with OTHER arguments in between (a second draw of this case's generator, whatever
+    # it returns or raises) must not change what the original arguments give
+    if not o.get('exempt'):
+        try:
+            with instr.disarmed():
+                fn_b, args_b, kw_b, o_b = (reg[name](np.random.default_rng([*case['rs'], 4711])) + ({},))[:4]
+                try:
+                    if (o_b or {}).get('seed') is not None:
+                        np.random.seed(o_b['seed'])
+                    fn_b(*args_b, **kw_b)
+                except Exception:
+                    pass
+            if seed is not None:
+                np.random.seed(seed)
+            with opt_ctx_f():
+                r2b = fn(*args, **kw)
+            R.check('C20.repeat', same(r1, r2b), f'repeat/depends-on-earlier-call/{name}', f'{name}: the result for the same arguments changed after the entry point had been called with other arguments in between')
+        except Exception as e:
+            if not instr.is_library_exception(e):
+                raise
+            R.count(f'{name}: interleaved probe raised {type(e).__name__}')
     # (a) read-only arguments -------------------------------------------------------------------------------------------------
     ro = [a for p, a in arrs if p not in no_ro]
     for a in ro:
